@@ -37,6 +37,41 @@ def hashopts(o):
     return {"server_replay_" + k: (list(o[k]) if isinstance(o[k], list) else bool(o[k])) for k in HASH_KEYS}
 
 
+# Content-Disposition spellings of one multipart part; (name, value, style).  CLEAR styles: RFC 7578 and every decoder
+# agree on whether the part is a form field and what its name is.  UNCLEAR styles: legal, but mitmproxy's decoder is known
+# to overlook them (unquoted token, name*=, upper-case parameter name, Content-Disposition not the first header) — how they
+# are decoded is the multipart property's business; for replay only "identical parts are treated identically" is demanded.
+CD_STYLES = {
+    0: lambda n, fn: 'form-data; name="%s"' % n,
+    1: lambda n, fn: 'form-data; filename="%s"; name="%s"' % (fn, n),          # filename BEFORE name
+    2: lambda n, fn: 'form-data; name="%s"; filename="%s"' % (n, fn),
+    3: lambda n, fn: 'form-data; x-note="%s"; name="%s"; size=3' % (fn, n),    # extra parameters around it
+    4: lambda n, fn: 'form-data; filename="%s"' % fn,                           # no name at all: not a form field
+    5: lambda n, fn: 'form-data; name=%s' % n,                                  # UNCLEAR: unquoted token
+    6: lambda n, fn: "form-data; name*=UTF-8''%s; filename=\"%s\"" % (n, fn),     # UNCLEAR: extended parameter only
+    7: lambda n, fn: 'form-data; Name="%s"' % n,                                # UNCLEAR: parameter names are case-insensitive
+    8: lambda n, fn: 'form-data; name="%s"' % n,                                # UNCLEAR: another header comes first
+}
+UNCLEAR = {5, 6, 7, 8}
+
+
+def raw_multipart(parts):
+    out = []
+    for n, v, st, fn in parts:
+        cd = "Content-Disposition: " + CD_STYLES[st](n, fn)
+        hdrs = ["Content-Type: text/plain", cd] if st == 8 else [cd, "Content-Type: text/plain"]
+        out.append("--XX\r\n" + "\r\n".join(hdrs) + "\r\n\r\n" + v + "\r\n")
+    return ("".join(out) + "--XX--\r\n").encode()
+
+
+def read_parts(parts):
+    """INDEPENDENT reading of the described parts (from the description, not from the bytes the decoder sees):
+    the form fields every reader agrees on, and the parts whose reading is unclear"""
+    fields = [(n, v) for n, v, st, fn in parts if st in (0, 1, 2, 3)]
+    unclear = [(st, n, v, fn) for n, v, st, fn in parts if st in UNCLEAR]
+    return fields, unclear
+
+
 def build_request(rq):
     """a live HTTP flow whose request is described by `rq`"""
     f = tflow.tflow()
@@ -55,6 +90,9 @@ def build_request(rq):
     elif kind == "multi":
         r.headers["content-type"] = MP_CT
         r.content = multipart.encode_multipart(MP_CT, [(k.encode(), v.encode()) for k, v in rq["form"]])
+    elif kind == "mraw":
+        r.headers["content-type"] = MP_CT
+        r.content = raw_multipart(rq["parts"])
     elif kind == "none":
         r.content = None
     else:
@@ -103,7 +141,11 @@ def spec_key(o, rq, fine=False):
         key.append(("host", hh.rsplit(":", 1)[0] if hh and ":" in hh else (hh or rq["h"])))
     if not o["ignore_port"]:
         key.append(("port", rq["p"]))
-    if not o["ignore_content"]:
+    if not o["ignore_content"] and rq["ct"] == "mraw" and o["ignore_payload_params"]:
+        fields, unclear = read_parts(rq["parts"])          # at least one clear field by construction
+        key.append(("multi" if fine else "form", tuple((k, v) for k, v in fields if k not in o["ignore_payload_params"]))
+                   + ((tuple(unclear),) if fine else ()))
+    elif not o["ignore_content"]:
         if o["ignore_payload_params"] and rq["ct"] in ("form", "multi") and rq["form"]:
             key.append((rq["ct"] if fine else "form", tuple((k, v) for k, v in rq["form"] if k not in o["ignore_payload_params"])))
         else:
@@ -125,7 +167,7 @@ _BODY = {}
 
 def raw_body(rq):
     """the bytes of the described request's body (None if it has none)"""
-    k = (rq["ct"], rq["body_hex"], str(rq["form"]))
+    k = (rq["ct"], rq["body_hex"], str(rq["form"]), str(rq.get("parts")))
     if k not in _BODY:
         _BODY[k] = build_request(dict(rq, q=[], hdrs=[], hh=None)).request.raw_content
     return _BODY[k]
@@ -203,7 +245,12 @@ class Check(PropertyCheck):
                   "trusted: SHA-256/repr injectivity on the key lists built by _hash (keyOf is the list before repr); "
                   "urllib.parse.urlparse/parse_qsl, the multipart/urlencoded decoders and Headers.get deliver the request parts "
                   "that keyOf consumes (library, fed as data); `host` of the statement is read as pretty_host (Host header "
-                  "preferred); response.copy()/refresh() not modelled (only which recording is served); recordings' requests are "
+                  "preferred); (f) hand-written multipart parts whose Content-Disposition is legal but known to be overlooked by "
+                  "mitmproxy's decoder (unquoted name token, name*=, upper-case parameter name, Content-Disposition not the first "
+                  "header) are left out of `served only if keys equal` and of the decoder-vs-independent-reader clause; identical "
+                  "parts must still be treated identically; all other spellings (name first / filename first / extra parameters / "
+                  "repeated names / no name) are compared with an independent reading of the described parts; "
+                  "response.copy()/refresh() not modelled (only which recording is served); recordings' requests are "
                   "not mutated while loaded; the tie is differential, not a proof; the table-mode tie feeds the model the "
                   "equality classes of the real _hash by design, the keyOf-mode tie lets the model predict them.")
     technique = "Lean 4 proof (invariant induction over histories) + differential model-vs-addon correspondence"
@@ -214,7 +261,8 @@ class Check(PropertyCheck):
             "loaded (12 % of the cases are built around one such change); recorded responses vary in status/headers/body, and "
             "after requests a later addon may edit (body / headers / status) the response a request was given (10 % of the cases "
             "serve one recording repeatedly — reuse or the same flow loaded twice — with such edits in between, refresh on/off); "
-            "pair cases: two request shapes + one option set. distinct = distinct case; non-trivial = at least one request "
+            "multipart bodies are partly written by hand with every Content-Disposition spelling, repeated and missing names and "
+            "filenames that collide with the ignore lists; pair cases: two request shapes + one option set. distinct = distinct case; non-trivial = at least one request "
             "served or a pair whose keys are equal for one side only.")
     budget = {"quick": 1500, "thorough": 60000}
     time_budget = {"quick": 20, "thorough": 500}
@@ -269,6 +317,17 @@ class Check(PropertyCheck):
         run([a], [R(0)], [["load", [0]]], ["cnt=2 fm=0,0 rec=0,0"], "not pending / duplicated")
         run([a], [R(0)], [["load", [0]], ["req", 0, cfg], ["req", 0, cfg]],
             [ld, "served:0 cnt=0 fm=- rec=-", "served:0 cnt=0 fm=- rec=-"], "not (any more) among the unserved")
+        # (5) multipart: a decoder that takes filename= for the name is rejected; unclear spellings are the only excuse
+        mp = dict(a, ct="mraw", parts=[["w", "1", 1, "u"]]); mp2 = dict(mp, parts=[["w", "2", 1, "u"]])
+        op = dict(o, ignore_payload_params=["u"])
+        pr = {"kind": "pair", "a": mp, "b": mp2, "o": op}
+        assert not self.oracle(pr, {"eq": False, "da": [["w", "1"]], "db": [["w", "2"]]}), "selftest: correct multipart reading rejected"
+        assert any("key is computed from" in f for f in self.oracle(pr, {"eq": True, "da": [["u", "1"]], "db": [["u", "2"]]}))
+        assert any("keys differ" in f for f in self.oracle(pr, {"eq": True, "da": [["w", "1"]], "db": [["w", "2"]]}))
+        un = {"kind": "pair", "a": dict(mp, parts=[["w", "1", 0, "u"], ["v", "1", 5, "u"]]),
+              "b": dict(mp, parts=[["w", "1", 0, "u"], ["v", "2", 5, "u"]]), "o": op}
+        assert not self.oracle(un, {"eq": True, "da": [["w", "1"]], "db": [["w", "1"]]}) and \
+            not self.oracle(un, {"eq": False, "da": [["w", "1"], ["v", "1"]], "db": [["w", "1"], ["v", "2"]]}), "selftest: unclear part not excused"
         # (4) the served response is the recorded one; only what refresh() may rewrite is left out, and only with refresh on
         run([a], [R(0)], [["load", [0]], ["req", 0, cfg]], [ld, "served:0!altered cnt=0 fm=- rec=-"], "is not the recorded response")
         case = {"kind": "hist", "reqs": [a], "recs": [R(0)], "opts": [o], "events": [["load", [0]], ["edit", "body", 0]]}
@@ -289,7 +348,7 @@ class Check(PropertyCheck):
     def gen_req(self, rng, base=None):
         if base is not None and rng.chance(0.75):
             rq = {k: (list(map(list, v)) if isinstance(v, list) else v) for k, v in base.items()}
-            f = rng.pick(["m", "s", "h", "p", "path", "q", "body", "hdrs", "hh", "form", "ct"])
+            f = rng.pick(["m", "s", "h", "p", "path", "q", "body", "hdrs", "hh", "form", "ct"] + (["parts"] * 6 if rq["ct"] == "mraw" else []))
             if f == "m": rq["m"] = rng.pick(self.M)
             elif f == "s": rq["s"] = rng.pick(self.S)
             elif f == "h": rq["h"] = rng.pick(self.H)
@@ -300,18 +359,33 @@ class Check(PropertyCheck):
             elif f == "hdrs": rq["hdrs"] = self.gen_h(rng)
             elif f == "hh": rq["hh"] = rng.pick([None, "a.com", "b.com", "a.com:8080"])
             elif f == "form": rq["form"] = self.gen_f(rng)
-            else: rq["ct"] = rng.pick(["", "form", "multi", "none", "text/plain"])
+            elif f == "parts":
+                ps = [list(p) for p in rq["parts"]]; i = rng.randrange(len(ps)); w = rng.randrange(4)
+                if w == 0: ps[i][1] = rng.pick(self.FV + ["3"])                       # another value
+                elif w == 1: ps[i][2] = rng.pick([0, 1, 2, 3]) if ps[i][2] in (0, 1, 2, 3) else ps[i][2]   # another spelling
+                elif w == 2: ps[i][3] = rng.pick(self.FK + ["f.txt"])                   # another filename
+                else: ps[i][0] = rng.pick(self.FK)
+                rq["parts"] = ps
+            else: rq["ct"] = rng.pick(["", "form", "multi", "none", "text/plain"] + (["mraw"] if rq.get("parts") else []))
             return rq
         return {"m": rng.pick(self.M), "s": rng.pick(self.S), "h": rng.pick(self.H), "p": rng.pick(self.P),
                 "path": rng.pick(self.PATH), "q": self.gen_q(rng), "hh": rng.weighted([(6, None), (1, "a.com"), (1, "b.com:8080")]),
-                "ct": rng.weighted([(4, ""), (3, "form"), (2, "multi"), (1, "none"), (1, "text/plain")]),
-                "body_hex": rng.pick(self.BODY), "form": self.gen_f(rng), "hdrs": self.gen_h(rng)}
+                "ct": rng.weighted([(4, ""), (3, "form"), (2, "multi"), (3, "mraw"), (1, "none"), (1, "text/plain")]),
+                "body_hex": rng.pick(self.BODY), "form": self.gen_f(rng), "hdrs": self.gen_h(rng), "parts": self.gen_parts(rng)}
 
     def gen_q(self, rng):
         return [[rng.pick(self.QK), rng.pick(self.QV)] for _ in range(rng.weighted([(3, 0), (3, 1), (3, 2), (1, 3)]))]
 
     def gen_f(self, rng):
         return [[rng.pick(self.FK), rng.pick(self.FV)] for _ in range(rng.weighted([(1, 0), (3, 1), (3, 2), (1, 3)]))]
+
+    def gen_parts(self, rng):
+        """multipart parts written by hand: every Content-Disposition spelling, repeated names, parts without a name;
+        filenames come from the same pool as the field names so that they collide with the ignore lists"""
+        ps = [[rng.pick(self.FK), rng.pick(self.FV), rng.weighted([(4, 0), (5, 1), (2, 2), (2, 3), (1, 4), (1, 5), (1, 6), (1, 7), (1, 8)]),
+               rng.pick(self.FK + ["f.txt"])] for _ in range(rng.weighted([(3, 1), (4, 2), (2, 3)]))]
+        if not any(p[2] in (0, 1, 2, 3) for p in ps): ps[0][2] = rng.pick([0, 1])
+        return ps
 
     def gen_h(self, rng):
         return [[rng.pick(self.HN + ["X-a"]), rng.pick(self.HV)] for _ in range(rng.weighted([(4, 0), (3, 1), (1, 2)]))]
@@ -420,7 +494,10 @@ class Check(PropertyCheck):
                 yield self.gen_hist(rng)
             else:
                 a = self.gen_req(rng)
-                yield {"kind": "pair", "a": a, "b": self.gen_req(rng, a), "o": self.gen_opts(rng)}
+                o = self.gen_opts(rng)
+                if a["ct"] == "mraw" and rng.chance(0.7):
+                    o["ignore_content"] = False; o["ignore_payload_params"] = rng.pick([["u"], ["v"], ["u", "v"], ["w"], ["f.txt"]])
+                yield {"kind": "pair", "a": a, "b": self.gen_req(rng, a), "o": o}
 
     # ---------------------------------------------------------------- running the real addon
     def _table(self, case, sp=None, tctx=None):
@@ -475,7 +552,9 @@ class Check(PropertyCheck):
             with addon_context(sp) as tctx:
                 tctx.options.update(**hashopts(case["o"]))
                 fa, fb = build_request(case["a"]), build_request(case["b"])
-                return {"eq": sp._hash(fa) == sp._hash(fb), "la": key_line(case["o"], fa), "lb": key_line(case["o"], fb)}
+                dec = lambda f: [[k.decode("latin1"), v.decode("latin1")] for k, v in f.request.multipart_form.items(multi=True)]
+                return {"eq": sp._hash(fa) == sp._hash(fb), "la": key_line(case["o"], fa), "lb": key_line(case["o"], fb),
+                        "da": dec(fa), "db": dec(fb)}
         sp = serverplayback.ServerPlayback()
         recs, ident = [], {}
         for i, rc in enumerate(case["recs"]):
@@ -542,6 +621,14 @@ class Check(PropertyCheck):
         if case["kind"] == "pair":
             # "receives a recorded response only if its matching key ... equals that of the recorded request"
             # (and a request whose key equals is a matching request)
+            # the form fields that enter the key are the fields of the request: for hand-written multipart bodies whose
+            # every part is spelled unambiguously, what the decoder hands to _hash must be what an independent reading gives
+            for side, dec in (("a", obs.get("da")), ("b", obs.get("db"))):
+                rq = case[side]
+                if rq["ct"] == "mraw" and dec is not None:
+                    fields, unclear = read_parts(rq["parts"])
+                    if not unclear and [list(x) for x in fields] != dec:
+                        return [f"pair: multipart fields of request {side} are {fields} but the key is computed from {dec}"]
             ka, kb = spec_key(case["o"], case["a"]), spec_key(case["o"], case["b"])
             if obs["eq"] and ka != kb:
                 return [f"pair: _hash equal but the statement's keys differ: {ka} / {kb}"]
